@@ -78,7 +78,8 @@ type loc struct {
 	base  string // ref term, or array-ref term for elem
 	idx   string // element index (absolute) for elem roots
 	sub   []string
-	typ   types.Type // type stored at this location
+	subT  []*types.Array // array types of the sub-indexed containers
+	typ   types.Type     // type stored at this location
 	fresh bool
 }
 
@@ -128,6 +129,8 @@ type fgen struct {
 	quiet         bool
 	ginvs         []*ginv
 	deferGuard    map[*ssa.Defer]string
+	readRec       map[string]bool // when non-nil, records the heap keys read
+	precise       *preciseInfo    // location-precise modifies items of the function under verification
 }
 
 func (g *fgen) emit(s string) { g.lines = append(g.lines, s) }
@@ -193,7 +196,7 @@ func (g *fgen) sortOf(t types.Type) string {
 	case *types.Struct:
 		return g.structSort(t, u)
 	case *types.Array:
-		return "(Array Int " + g.sortOf(u.Elem()) + ")"
+		return g.arraySort(u)
 	case *types.Tuple:
 		return "Int"
 	case *types.TypeParam:
@@ -261,9 +264,67 @@ func (g *fgen) zero(t types.Type) string {
 		}
 		return "(mk_" + s + " " + strings.Join(fs, " ") + ")"
 	case *types.Array:
-		return fmt.Sprintf("((as const %s) %s)", g.sortOf(t), g.zero(u.Elem()))
+		return g.arraySort(u) + "_zero"
 	}
 	return "0"
+}
+
+// arraySort: Go array *values* [N]T are an uninterpreted sort with get/set functions
+// (not SMT arrays: they are used as map keys and compared with ==, and solvers handle
+// array-indexed arrays badly).  Backing arrays of slices stay SMT arrays.
+func (g *fgen) arraySort(a *types.Array) string {
+	es := g.sortOf(a.Elem())
+	name := fmt.Sprintf("Arr%d_%s", a.Len(), mangle(es))
+	if g.declared["sort:"+name] {
+		return name
+	}
+	g.declared["sort:"+name] = true
+	g.emit(fmt.Sprintf("(declare-sort %s 0)", name))
+	g.emit(fmt.Sprintf("(declare-fun %s_get (%s Int) %s)", name, name, es))
+	g.emit(fmt.Sprintf("(declare-fun %s_set (%s Int %s) %s)", name, name, es, name))
+	g.emit(fmt.Sprintf("(declare-const %s_zero %s)", name, name))
+	g.emit(fmt.Sprintf("(assert (forall ((a!a %s) (i!a Int) (v!a %s) (j!a Int)) (! (= (%s_get (%s_set a!a i!a v!a) j!a) (ite (= i!a j!a) v!a (%s_get a!a j!a))) :pattern ((%s_get (%s_set a!a i!a v!a) j!a)))))",
+		name, es, name, name, name, name, name))
+	g.emit(fmt.Sprintf("(assert (forall ((i!a Int)) (! (= (%s_get %s_zero i!a) %s) :pattern ((%s_get %s_zero i!a)))))", name, name, g.zero(a.Elem()), name, name))
+	// no extensionality axiom: it would be inconsistent with set() at an index >= N
+	// (sound to omit; equality of arrays built cell by cell is then not provable)
+	return name
+}
+
+func (g *fgen) arrGet(a *types.Array, arr, i string) string {
+	return fmt.Sprintf("(%s_get %s %s)", g.arraySort(a), arr, i)
+}
+
+func (g *fgen) arrSet(a *types.Array, arr, i, v string) string {
+	return fmt.Sprintf("(%s_set %s %s %s)", g.arraySort(a), arr, i, v)
+}
+
+// arrFromSMT: an array value whose cells equal those of an SMT (Array Int T) term.
+func (g *fgen) arrFromSMT(a *types.Array, smt string) string {
+	s := g.arraySort(a)
+	n := g.fresh("arrv", s)
+	if a.Len() <= 32 {
+		for i := int64(0); i < a.Len(); i++ {
+			g.fact("true", fmt.Sprintf("(= (%s_get %s %d) (select %s %d))", s, n, i, smt, i))
+		}
+	} else {
+		g.emit(fmt.Sprintf("(assert (forall ((i!a Int)) (! (=> (and (<= 0 i!a) (< i!a %d)) (= (%s_get %s i!a) (select %s i!a))) :pattern ((%s_get %s i!a)))))", a.Len(), s, n, smt, s, n))
+	}
+	return n
+}
+
+// arrToSMT: an SMT array whose first N cells equal the array value.
+func (g *fgen) arrToSMT(a *types.Array, v string) string {
+	s := g.arraySort(a)
+	n := g.fresh("arrs", "(Array Int "+g.sortOf(a.Elem())+")")
+	if a.Len() <= 32 {
+		for i := int64(0); i < a.Len(); i++ {
+			g.fact("true", fmt.Sprintf("(= (select %s %d) (%s_get %s %d))", n, i, s, v, i))
+		}
+	} else {
+		g.emit(fmt.Sprintf("(assert (forall ((i!a Int)) (! (=> (and (<= 0 i!a) (< i!a %d)) (= (select %s i!a) (%s_get %s i!a))) :pattern ((select %s i!a)))))", a.Len(), n, s, v, n))
+	}
+	return n
 }
 
 // wf returns well-formedness facts for a term of type t (ranges, slice shape, refs allocated).
@@ -334,6 +395,9 @@ func (g *fgen) heapSortFor(root int, leaf string) string {
 }
 
 func (g *fgen) read(st *state, key string) string {
+	if g.readRec != nil {
+		g.readRec[key] = true
+	}
 	if t, ok := st.heap[key]; ok {
 		return t
 	}
@@ -408,14 +472,34 @@ func (g *fgen) loadAt(st *state, l *loc, path []int, t types.Type) string {
 
 func (g *fgen) load(st *state, l *loc) string {
 	if len(l.sub) > 0 {
-		// l.typ is the element type; container leaf is an SMT array
+		// l.typ is the element type; the container leaf holds an array value
 		t := g.loadLeafRaw(st, l)
-		for _, s := range l.sub {
-			t = fmt.Sprintf("(select %s %s)", t, s)
+		for i, s := range l.sub {
+			t = g.arrGet(l.subT[i], t, s)
 		}
 		return t
 	}
+	if a, ok := g.wholeArray(l); ok {
+		// array object behind a pointer: lives in the element heap as an SMT array
+		k := g.registerElemKey(a.Elem())
+		return g.arrFromSMT(a, fmt.Sprintf("(select %s %s)", g.read(st, k), l.base))
+	}
 	return g.loadAt(st, l, l.path, l.typ)
+}
+
+// wholeArray: l denotes a whole array object in the element heap.
+func (g *fgen) wholeArray(l *loc) (*types.Array, bool) {
+	if l.root != rootElem || l.idx != "" || len(l.path) > 0 {
+		return nil, false
+	}
+	a, ok := l.typ.Underlying().(*types.Array)
+	if !ok {
+		return nil, false
+	}
+	if _, isS := isStructVal(a.Elem()); isS {
+		return nil, false
+	}
+	return a, true
 }
 
 // loadLeafRaw for sub-indexed locations: the leaf key was registered when the loc was built.
@@ -463,14 +547,14 @@ func (g *fgen) store(st *state, l *loc, v string) {
 	if len(l.sub) > 0 {
 		cur := g.loadLeafRaw(st, l)
 		// build nested store
-		var build func(arr string, subs []string) string
-		build = func(arr string, subs []string) string {
+		var build func(arr string, subs []string, ts []*types.Array) string
+		build = func(arr string, subs []string, ts []*types.Array) string {
 			if len(subs) == 1 {
-				return fmt.Sprintf("(store %s %s %s)", arr, subs[0], v)
+				return g.arrSet(ts[0], arr, subs[0], v)
 			}
-			return fmt.Sprintf("(store %s %s %s)", arr, subs[0], build(fmt.Sprintf("(select %s %s)", arr, subs[0]), subs[1:]))
+			return g.arrSet(ts[0], arr, subs[0], build(g.arrGet(ts[0], arr, subs[0]), subs[1:], ts[1:]))
 		}
-		nv := build(cur, l.sub)
+		nv := build(cur, l.sub, l.subT)
 		k := heapKey(l.root, l.rootT, l.path)
 		h := g.read(st, k)
 		var nh string
@@ -484,6 +568,14 @@ func (g *fgen) store(st *state, l *loc, v string) {
 		}
 		name := g.fresh("H_"+k, g.heapSort[k])
 		g.fact("true", fmt.Sprintf("(= %s %s)", name, nh))
+		st.heap[k] = name
+		return
+	}
+	if a, ok := g.wholeArray(l); ok {
+		k := g.registerElemKey(a.Elem())
+		h := g.read(st, k)
+		name := g.fresh("H_"+k, g.heapSort[k])
+		g.fact("true", fmt.Sprintf("(= %s (store %s %s %s))", name, h, l.base, g.arrToSMT(a, v)))
 		st.heap[k] = name
 		return
 	}
